@@ -145,6 +145,33 @@ def evaluation_orders(repo):
     return res
 
 
+GRID_METHODS = ("compute_lag_grid_position_field", "compute_lag_grid_velocity_field", "transfer_forcing_from_grid_to_body")
+
+
+def constructor_order(g):
+    """the grid methods a forcing-grid constructor calls on itself, in execution order (super().__init__ inlined)"""
+    import ast
+
+    def of_class(k):
+        if k >= len(g.mro):
+            return []
+        init = next((f for f in g.mro[k].body if isinstance(f, ast.FunctionDef) and f.name == "__init__"), None)
+        if init is None:
+            return of_class(k + 1)
+        out = []
+        for st in init.body:
+            calls = [n for n in ast.walk(st) if isinstance(n, ast.Call) and isinstance(n.func, ast.Attribute)]
+            for c in sorted(calls, key=lambda c: (c.end_lineno, c.end_col_offset)):
+                if ast.unparse(c.func) == "super().__init__":
+                    out.extend(of_class(k + 1))
+                elif isinstance(c.func.value, ast.Name) and c.func.value.id == "self" and c.func.attr in GRID_METHODS:
+                    if not isinstance(st, (ast.Expr, ast.Assign)):
+                        raise Unsupported("%s.__init__ calls %s under control flow" % (g.mro[k].name, c.func.attr))
+                    out.append((c.func.attr, c.lineno))
+        return out
+    return of_class(0)
+
+
 def stale_reads(repo, relfile, cls, dim):
     """def-use rule: a buffer that any compute_*/transfer method of the grid (re)computes from the body state must be written in
     an evaluation before that evaluation reads it.  Returns (derived buffers, {evaluation: [stale read descriptions]})."""
@@ -159,7 +186,9 @@ def stale_reads(repo, relfile, cls, dim):
             cur.append(ev)
     derived = {ev[1] for evs in per.values() for ev in evs if ev[0] == "set"}
     out = {}
-    for m, seq in evaluation_orders(repo).items():
+    orders = dict(evaluation_orders(repo))
+    orders["__init__ (fresh grid object)"] = [x for x in constructor_order(g) if x[0] in per]
+    for m, seq in orders.items():
         fresh, bad = set(), []
         for meth, line in seq:
             if meth not in per:
